@@ -97,9 +97,15 @@ def gen(cls, idx, rng, tier):
         return gen_many(rng)
     m = par.gen_machine(rng, max_w=4, max_h=4,
                         p_exc=0.9 if cls == "exceptions" else 0.3,
-                        res={"Cores": rng.choice([1, 4, 18]),
-                             "SDRAM": rng.choice([0, 10, 64, 100]),
-                             "SRAM": rng.choice([5, 16])})
+                        res=dict({"Cores": rng.choice([1, 4, 18]),
+                                  "SDRAM": rng.choice([0, 10, 64, 100]),
+                                  "SRAM": rng.choice([5, 16])},
+                                 # a resource of the user's own, named by
+                                 # value (par.res_obj hands every use site
+                                 # its own equal key object)
+                                 **({"bank-%d" % rng.randrange(3):
+                                     rng.choice([8, 32, 100])}
+                                    if rng.random() < .4 else {})))
     ends_only = cls in ("ends", "tight", "zero") or (
         cls == "exceptions" and rng.random() < .5)
     cons = par.gen_reservations(rng, m, n_max=6 if cls == "interleaved" else 3,
